@@ -653,4 +653,187 @@ theorem feeds_render (o : Opts) (d : Doc) (l : Layout) (hok : feedOk o.dia d l =
   rw [← docX_specs, render_eq] at *
   exact feeds_linear o l (docX d) 0 1 0 .end_ .none true (by simp) hok hfit
 
+/-! ### fuel: the rendered text is long enough for the productions' fuel -/
+
+/-- a lower bound of the number of characters of a token, by kind -/
+def wtX : XTok → Nat
+  | .blockHead _ => 6
+  | .frameHead _ => 6
+  | .frameTerm => 5
+  | _ => 1
+
+def W : List XPiece → Nat
+  | [] => 0
+  | .sep _ _ :: r => W r
+  | .tok x :: r => wtX x + W r
+
+theorem W_append (a b : List XPiece) : W (a ++ b) = W a + W b := by
+  induction a with
+  | nil => simp [W]
+  | cons p a ih => cases p <;> simp [W, ih, Nat.add_assoc]
+
+theorem wtX_le {dia : Dialect} {x : XTok} (h : tokOk dia x = true) : wtX x ≤ x.chars.length := by
+  cases x with
+  | val p s =>
+    cases p <;> simp only [wtX, XTok.chars, renderValue, List.length_cons, List.length_append] <;> try omega
+    simp only [tokOk, admissible, bareOk] at h
+    cases s with
+    | nil => simp at h
+    | cons c r => simp
+  | key p k => simp [wtX, XTok.chars, renderKey]
+  | name n =>
+    cases n with
+    | nil => simp [tokOk] at h
+    | cons c s => simp [wtX, XTok.chars]
+  | blockHead c =>
+    simp only [tokOk, Bool.and_eq_true, bne_iff_ne, ne_eq] at h
+    cases c with
+    | nil => exact absurd rfl h.2
+    | cons a r => simp [wtX, XTok.chars, kw]
+  | frameHead c =>
+    simp only [tokOk, Bool.and_eq_true, bne_iff_ne, ne_eq] at h
+    cases c with
+    | nil => exact absurd rfl h.2
+    | cons a r => simp [wtX, XTok.chars, kw]
+  | frameTerm => simp [wtX, XTok.chars, kw]
+  | loopKw => simp [wtX, XTok.chars, kw]
+  | br c ty => simp [wtX, XTok.chars]
+
+theorem W_le_length (dia : Dialect) (l : Layout) : ∀ (ps : List XPiece) (k : Nat) (aw cz : Bool) (pend : Pend),
+    linOk dia l k aw pend cz ps = true → W ps ≤ (renderX l k ps).length
+  | [], _, _, _, _, _ => by simp [W]
+  | .sep _ _ :: r, k, aw, cz, pend, h => by
+    simp only [linOk, Bool.and_eq_true] at h
+    have := W_le_length dia l r (k + 1) _ _ _ h.2
+    simp only [W, renderX, List.length_append]; omega
+  | .tok x :: r, k, aw, cz, pend, h => by
+    simp only [linOk, Bool.and_eq_true] at h
+    have h1 := wtX_le h.1.1.1.1
+    have h2 := W_le_length dia l r k _ _ _ h.2
+    simp only [W, renderX, List.length_append]; omega
+
+mutual
+  theorem szVal_le : ∀ v : Val, szVal v ≤ W (valX v)
+    | .unk => by simp [szVal, valX, W, wtX]
+    | .na => by simp [szVal, valX, W, wtX]
+    | .str _ _ => by simp [szVal, valX, W, wtX]
+    | .enc _ _ => by simp [szVal, valX, W, wtX]
+    | .lst vs => by have := szVals_le vs; simp only [szVal, valX, W, W_append, wtX]; omega
+    | .tbl es => by have := szEntries_le es; simp only [szVal, valX, W, W_append, wtX]; omega
+  theorem szVals_le : ∀ vs : List Val, szVals vs ≤ W (valsX vs)
+    | [] => by simp [szVals, valsX, W]
+    | v :: vs => by have := szVal_le v; have := szVals_le vs; simp only [szVals, valsX, W, W_append]; omega
+  theorem szEntries_le : ∀ es : List (Str × Presentation × Val), szEntries es ≤ W (entriesX es)
+    | [] => by simp [szEntries, entriesX, W]
+    | (k, p, v) :: es => by
+      have := szVal_le v; have := szEntries_le es
+      simp only [szEntries, entriesX, W, W_append, wtX]; omega
+end
+
+theorem szPackets_le : ∀ ps : List (List Val), szPackets ps ≤ W (packetsX ps)
+  | [] => by simp [szPackets, packetsX, W]
+  | p :: ps => by have := szVals_le p; have := szPackets_le ps; simp only [szPackets, packetsX, W_append]; omega
+
+theorem W_namesX : ∀ ns : List Str, W (namesX ns) = ns.length
+  | [] => rfl
+  | n :: ns => by simp [namesX, W, wtX, W_namesX ns]; omega
+
+theorem szItem_le (i : Item) : szItem i ≤ W (itemX i) ∧ 1 ≤ szItem i := by
+  cases i with
+  | item n v => have := szVal_le v; simp only [szItem, itemX, W, W_append, wtX, List.cons_append, List.nil_append]; omega
+  | loop ns ps =>
+    have := szPackets_le ps
+    simp only [szItem, itemX, W, W_append, wtX, W_namesX, List.cons_append, List.nil_append]; omega
+
+theorem szItems_le : ∀ r : List Item, szItems r + r.length ≤ 2 * W (itemsX r)
+  | [] => by simp [szItems, itemsX, W]
+  | i :: r => by
+    have := szItem_le i; have := szItems_le r
+    simp only [szItems, itemsX, W_append, List.length_cons]; omega
+
+theorem szElems_le : ∀ r : List Elem, szElems r + r.length ≤ 2 * W (elemsX r)
+  | [] => by simp [szElems, elemsX, W]
+  | .plain i :: r => by
+    have := szItem_le i; have := szElems_le r
+    simp only [szElems, szElem, elemsX, elemX, W_append, List.length_cons]; omega
+  | .frame c b :: r => by
+    have := szItems_le b; have := szElems_le r
+    simp only [szElems, szElem, elemsX, elemX, W, W_append, wtX, List.length_cons, List.cons_append, List.nil_append]; omega
+
+theorem szBlocks_le : ∀ d : List Block, szBlocks d + d.length ≤ 2 * W (blocksX d)
+  | [] => by simp [szBlocks, blocksX, W]
+  | b :: r => by
+    have := szElems_le b.body; have := szBlocks_le r
+    simp only [szBlocks, szBlock, blocksX, blockX, W, W_append, wtX, List.length_cons, List.cons_append, List.nil_append]; omega
+
+theorem W_docX (d : Doc) : W (docX d) = W (blocksX d) := by
+  unfold docX
+  cases h : blocksX d with
+  | nil => rfl
+  | cons p r => cases p <;> simp [W, W_append]
+
+/-- the fuel that `parse` gives the productions suffices for a rendered document -/
+theorem fuel_render (dia : Dialect) (d : Doc) (l : Layout) (hok : feedOk dia d l = true) :
+    szBlocks d + d.length + 1 ≤ fuelFor (render d l) := by
+  have h1 := szBlocks_le d
+  have h2 := W_le_length dia l (docX d) 0 true true .none hok
+  rw [W_docX] at h2
+  rw [render_eq]
+  unfold fuelFor
+  omega
+
+/-! ### the first character -/
+
+theorem docX_head (d : Doc) : ∃ r, docX d = .sep false false :: r ∧ (d = [] → r = []) ∧
+    (∀ b bs, d = b :: bs → ∃ r', r = .tok (.blockHead b.code) :: r') := by
+  cases d with
+  | nil => exact ⟨[], rfl, fun _ => rfl, fun b bs h => by cases h⟩
+  | cons b bs =>
+    refine ⟨.tok (.blockHead b.code) :: (elemsX b.body ++ (blocksX bs ++ [.sep false false])), by simp [docX, blocksX, blockX],
+      (fun h => nomatch h), ?_⟩
+    intro b' bs' h
+    cases h
+    exact ⟨_, rfl⟩
+
+/-- the first character of a rendered document is one that cif_parse_internal accepts without a report, and no BOM -/
+theorem first_char (dia : Dialect) (d : Doc) (l : Layout) (hok : feedOk dia d l = true) (c : Nat) (rest : Str)
+    (h : render d l = c :: rest) : disallowedInitial c = false ∧ (c == 0xFEFF) = false := by
+  obtain ⟨r, hr, hnil, hcons⟩ := docX_head d
+  rw [render_eq, hr] at h
+  unfold feedOk at hok
+  rw [hr] at hok
+  simp only [linOk, Bool.and_eq_true] at hok
+  have hall : ∀ a ∈ l 0, a.ok dia = true := by have := hok.1.1; rwa [List.all_eq_true] at this
+  simp only [renderX] at h
+  have key : c = 100 ∨ c = 32 ∨ c = 9 ∨ c = 10 ∨ c = 35 := by
+    cases hl : l 0 with
+    | nil =>
+      rw [hl] at h
+      simp only [renderWs, List.map_nil, List.flatten_nil, List.nil_append] at h
+      cases d with
+      | nil => rw [hnil rfl] at h; simp [renderX] at h
+      | cons b bs =>
+        obtain ⟨r', hr'⟩ := hcons b bs rfl
+        rw [hr'] at h
+        simp only [renderX, XTok.chars, kw, List.cons_append, List.nil_append, List.cons.injEq] at h
+        exact Or.inl h.1.symm
+    | cons a w =>
+      rw [hl] at h
+      have ha := hall a (by rw [hl]; simp)
+      rw [renderWs_cons] at h
+      cases a with
+      | blank x =>
+        simp only [WsAtom.render, List.cons_append, List.nil_append, List.cons.injEq] at h
+        simp only [WsAtom.ok, isBlank, Bool.or_eq_true, beq_iff_eq] at ha
+        rcases ha with e | e
+        · exact Or.inr (Or.inl (by rw [← h.1, e]))
+        · exact Or.inr (Or.inr (Or.inl (by rw [← h.1, e])))
+      | eol =>
+        simp only [WsAtom.render, List.cons_append, List.nil_append, List.cons.injEq] at h
+        exact Or.inr (Or.inr (Or.inr (Or.inl h.1.symm)))
+      | comment b =>
+        simp only [WsAtom.render, List.cons_append, List.cons.injEq] at h
+        exact Or.inr (Or.inr (Or.inr (Or.inr h.1.symm)))
+  rcases key with e | e | e | e | e <;> subst e <;> exact ⟨by decide, by decide⟩
+
 end CifModel.FeedsRender
